@@ -129,6 +129,15 @@ def check_cases(ctx, cases):
             if build(case, variant=variant).id != rel.id:
                 ctx.fail(case, "synthetic/metadata/name/email influence the id", "non-tag-attribute-influences-id", {"metadata": repr(METADATA_VARIANTS[variant])[:200]})
                 break
+        # a raw manifest taken on and dropped again through evolve(): the id follows each time
+        try:
+            raw_ = b"tag object kept verbatim\n" + man[:20]
+            r1_ = rel.evolve(raw_manifest=raw_)
+            r2_ = r1_.evolve(raw_manifest=None)
+            if r1_.id != hashlib.sha1(raw_).digest() or r2_.id != rel.id or r2_.raw_manifest is not None or r2_ != rel:
+                ctx.fail(case, "taking on a raw manifest and dropping it again through evolve() does not give back the release with the id of its own tag object", "evolve-raw-manifest-id-stale")
+        except Exception as e:
+            ctx.fail(case, f"evolve(raw_manifest=...) raises {type(e).__name__}", "evolve-raw-manifest-raises")
         # the (deprecated, still accepted) dictionary form of the argument gives the same manifest
         import warnings
 
